@@ -85,14 +85,23 @@ func drawColType(t *rapid.T, label string, crossKind ...bool) gen.TypeSpec {
 		return ts
 	}
 
-	for _, n := range []string{"p", "q", "s"} {
+	// (P and M are names of their own, not p and m in another letter case)
+	for _, n := range []string{"P", "p", "q", "s"} {
+		if n == "P" && rapid.IntRange(0, 3).Draw(t, label+"-has-P-really") != 0 {
+			continue
+		}
+
 		if rapid.Bool().Draw(t, label+"-has-"+n) {
 			k := rapid.SampledFrom(c19Kinds).Draw(t, label+"-kind-"+n)
 			ts.Attrs = append(ts.Attrs, jsonapi.Attr{Name: n, Type: k.Type, Nullable: k.Nullable})
 		}
 	}
 
-	for _, n := range []string{"m", "o"} {
+	for _, n := range []string{"M", "m", "o"} {
+		if n == "M" && rapid.IntRange(0, 3).Draw(t, label+"-has-M-really") != 0 {
+			continue
+		}
+
 		if rapid.Bool().Draw(t, label+"-has-"+n) {
 			ts.Rels = append(ts.Rels, jsonapi.Rel{FromType: "t", FromName: n, ToType: "t", ToOne: rapid.Bool().Draw(t, label+"-toOne-"+n)})
 		}
